@@ -3,6 +3,10 @@ import Exetera.Lemmas.GenKernelsSpans
 import Exetera.Lemmas.GenKernelsSpansMinMax
 import Exetera.Lemmas.GenKernelsSpansIndex
 import Exetera.Lemmas.GenKernelsSpansMerge
+import Exetera.Lemmas.GenKernelsSpansFilter
+import Exetera.Lemmas.GenKernelsSpans2Fields
+import Exetera.Lemmas.GenKernelsSpansIndexed
+import Exetera.Lemmas.GenKernelsSpansMulti
 /-!
   C08 over the TRANSLATED kernels.  `Gen/Kernels.lean` is regenerated from exetera/core/operations.py by
   tools/translate_njit.py on every run; the theorems below are therefore re-checked against what the source says NOW.
@@ -163,5 +167,148 @@ theorem gen_merge_spans_eq_union (s0 s1 : List Nat) (n : Nat) (h0 : Wellformed s
 
 example : _get_spans_for_2_fields_by_spans.run [0, 2, 5] [0, 1, 2, 4, 5] 5 = .ok [0, 1, 2, 4, 5] := rfl
 example : Wellformed [0, 2, 5] 5 ∧ Wellformed [0, 1, 2, 4, 5] 5 := ⟨⟨by decide, rfl, rfl⟩, ⟨by decide, rfl, rfl⟩⟩
+
+/-! ## the `_filter` forms (caller-supplied `dest_array` / `filter_array`, really subscripted) -/
+
+theorem gen_apply_spans_index_of_first_filter_refines (sp : List Nat) (dest : List Int) (filt : List Bool) :
+    Sim (apply_spans_index_of_first_filter.run (ints sp) dest filt) (applySpansIndexOfFirstFilter sp dest filt) :=
+  apply_spans_index_of_first_filter_refines sp dest filt
+
+theorem gen_apply_spans_index_of_last_filter_refines (sp : List Nat) (dest : List Int) (filt : List Bool) :
+    Sim (apply_spans_index_of_last_filter.run (ints sp) dest filt) (applySpansIndexOfLastFilter sp dest filt) :=
+  apply_spans_index_of_last_filter_refines sp dest filt
+
+theorem gen_apply_spans_index_of_min_filter_refines (sp : List Nat) (src dest : List Int) (filt : List Bool) :
+    Sim (apply_spans_index_of_min_filter.run (ints sp) src dest filt) (applySpansIndexOfMinFilter sp src dest filt) :=
+  apply_spans_index_of_min_filter_refines sp src dest filt
+
+theorem gen_apply_spans_index_of_max_filter_refines (sp : List Nat) (src dest : List Int) (filt : List Bool) :
+    Sim (apply_spans_index_of_max_filter.run (ints sp) src dest filt) (applySpansIndexOfMaxFilter sp src dest filt) :=
+  apply_spans_index_of_max_filter_refines sp src dest filt
+
+/-- the statement of `C08.apply_spans_index_of_min_filter_eq` for the translated kernel: with room for one entry per span in both
+    buffers it returns `.ok` (every subscript in range, none negative); `filter_array[k]` is True exactly for the non-empty spans;
+    `dest_array[k]` is untouched for an empty span and otherwise the row number of the span's first minimum -/
+theorem gen_apply_spans_index_of_min_filter_eq (sp : List Nat) (src dest : List Int) (filt : List Bool)
+    (hw : C08.WeakSpans sp src.length) (hd : (pairs sp).length ≤ dest.length) (hf : (pairs sp).length ≤ filt.length) :
+    ∃ (d : List Int) (f : List Bool), apply_spans_index_of_min_filter.run (ints sp) src dest filt = .ok (d, f) ∧
+      d.length = dest.length ∧ f.length = filt.length ∧
+      (∀ (k : Nat) (p : Nat × Nat), (pairs sp)[k]? = some p → f[k]? = some (p.1 != p.2) ∧
+        ((p.1 = p.2 ∧ d[k]? = dest[k]?) ∨ (p.1 ≠ p.2 ∧ ∃ v, d[k]? = some v ∧
+          (argminOf (rowsOf src p)).map (fun j => ((p.1 + j : Nat) : Int)) = some v))) ∧
+      (∀ k : Nat, (pairs sp).length ≤ k → d[k]? = dest[k]? ∧ f[k]? = filt[k]?) := by
+  obtain ⟨d, f, hr, rest⟩ := C08.apply_spans_index_of_min_filter_eq sp src dest filt hw hd hf
+  exact ⟨d, f, (apply_spans_index_of_min_filter_refines sp src dest filt).ok_right hr, rest⟩
+
+theorem gen_apply_spans_index_of_max_filter_eq (sp : List Nat) (src dest : List Int) (filt : List Bool)
+    (hw : C08.WeakSpans sp src.length) (hd : (pairs sp).length ≤ dest.length) (hf : (pairs sp).length ≤ filt.length) :
+    ∃ (d : List Int) (f : List Bool), apply_spans_index_of_max_filter.run (ints sp) src dest filt = .ok (d, f) ∧
+      d.length = dest.length ∧ f.length = filt.length ∧
+      (∀ (k : Nat) (p : Nat × Nat), (pairs sp)[k]? = some p → f[k]? = some (p.1 != p.2) ∧
+        ((p.1 = p.2 ∧ d[k]? = dest[k]?) ∨ (p.1 ≠ p.2 ∧ ∃ v, d[k]? = some v ∧
+          (argmaxOf (rowsOf src p)).map (fun j => ((p.1 + j : Nat) : Int)) = some v))) ∧
+      (∀ k : Nat, (pairs sp).length ≤ k → d[k]? = dest[k]? ∧ f[k]? = filt[k]?) := by
+  obtain ⟨d, f, hr, rest⟩ := C08.apply_spans_index_of_max_filter_eq sp src dest filt hw hd hf
+  exact ⟨d, f, (apply_spans_index_of_max_filter_refines sp src dest filt).ok_right hr, rest⟩
+
+/-- first / last row number of every non-empty span, for ANY span array, computed by the translated kernels -/
+theorem gen_apply_spans_index_of_first_filter_eq (sp : List Nat) (dest : List Int) (filt : List Bool)
+    (hd : (pairs sp).length ≤ dest.length) (hf : (pairs sp).length ≤ filt.length) :
+    ∃ (d : List Int) (f : List Bool), apply_spans_index_of_first_filter.run (ints sp) dest filt = .ok (d, f) ∧
+      d.length = dest.length ∧ f.length = filt.length ∧
+      (∀ (k : Nat) (p : Nat × Nat), (pairs sp)[k]? = some p → f[k]? = some (p.1 != p.2) ∧
+        ((p.1 = p.2 ∧ d[k]? = dest[k]?) ∨ (p.1 ≠ p.2 ∧ d[k]? = some (p.1 : Int)))) ∧
+      (∀ k : Nat, (pairs sp).length ≤ k → d[k]? = dest[k]? ∧ f[k]? = filt[k]?) := by
+  obtain ⟨d, f, hr, rest⟩ := C08.apply_spans_index_of_first_filter_eq sp dest filt hd hf
+  exact ⟨d, f, (apply_spans_index_of_first_filter_refines sp dest filt).ok_right hr, rest⟩
+
+theorem gen_apply_spans_index_of_last_filter_eq (sp : List Nat) (dest : List Int) (filt : List Bool)
+    (hd : (pairs sp).length ≤ dest.length) (hf : (pairs sp).length ≤ filt.length) :
+    ∃ (d : List Int) (f : List Bool), apply_spans_index_of_last_filter.run (ints sp) dest filt = .ok (d, f) ∧
+      d.length = dest.length ∧ f.length = filt.length ∧
+      (∀ (k : Nat) (p : Nat × Nat), (pairs sp)[k]? = some p → f[k]? = some (p.1 != p.2) ∧
+        ((p.1 = p.2 ∧ d[k]? = dest[k]?) ∨ (p.1 ≠ p.2 ∧ d[k]? = some ((p.2 : Int) - 1)))) ∧
+      (∀ k : Nat, (pairs sp).length ≤ k → d[k]? = dest[k]? ∧ f[k]? = filt[k]?) := by
+  obtain ⟨d, f, hr, rest⟩ := C08.apply_spans_index_of_last_filter_eq sp dest filt hd hf
+  exact ⟨d, f, (apply_spans_index_of_last_filter_refines sp dest filt).ok_right hr, rest⟩
+
+example : apply_spans_index_of_min_filter.run [0, 0, 2, 3] [5, 4, 9] [7, 7, 7] [false, false, false] =
+    .ok ([7, 1, 2], [false, true, true]) := rfl
+example : apply_spans_index_of_last_filter.run [0, 0, 2, 3] [7, 7, 7] [false, false, false] =
+    .ok ([7, 1, 2], [false, true, true]) := rfl
+
+/-! ## _get_spans_for_2_fields_njit -/
+
+/-- on ANY caller-supplied `spans` buffer: the slice the translated kernel returns is the model's span array for `cap = len(spans)`,
+    or both fail with the same error class (buffer too short, second column shorter than the first) -/
+theorem gen_get_spans_2_fields_njit_refines (a b buf : List Int) :
+    Sim ((_get_spans_for_2_fields_njit.run a b buf).map Prod.fst)
+      ((getSpansFor2FieldsNjit .repaired a b buf.length).map ints) :=
+  get_spans_for_2_fields_njit_refines a b buf
+
+/-- as `_get_spans_for_2_fields` calls it (a buffer of `len + 1` entries): the translated kernel returns `.ok` — no subscript out
+    of range or negative, for every length including 0 — and the span array of the zipped column -/
+theorem gen_get_spans_2_fields_eq_spec (a b : List Int) (hl : a.length = b.length) (buf : List Int)
+    (hb : buf.length = a.length + 1) :
+    ∃ buf', _get_spans_for_2_fields_njit.run a b buf = .ok (ints (spans neq (a.zip b)), buf') := by
+  have h := get_spans_for_2_fields_njit_refines a b buf
+  have hm : getSpansFor2FieldsNjit .repaired a b buf.length = .ok (spans neq (a.zip b)) := by
+    rw [hb]; exact C08.get_spans_2_fields_eq_spec a b hl
+  rw [hm] at h
+  cases hr : _get_spans_for_2_fields_njit.run a b buf with
+  | error e => rw [hr] at h; simp [Sim, Except.map] at h
+  | ok r =>
+    rw [hr] at h
+    simp only [Sim, Except.map] at h
+    exact ⟨r.2, by rw [← h]⟩
+
+example : _get_spans_for_2_fields_njit.run [1, 1, 1, 2] [5, 6, 6, 6] [0, 0, 0, 0, 0] = .ok ([0, 1, 3, 4], [0, 1, 3, 4, 0]) := rfl
+example : _get_spans_for_2_fields_njit.run [] [] [9] = .ok ([0], [0]) := rfl
+
+/-! ## _get_spans_for_multi_fields_njit (2-D argument = the list of its rows) -/
+
+theorem gen_get_spans_multi_fields_njit_refines (fs : List (List Int)) (buf : List Int) :
+    Sim ((_get_spans_for_multi_fields_njit.run fs buf).map Prod.fst)
+      ((getSpansForMultiFieldsNjit .repaired fs buf.length).map ints) :=
+  get_spans_for_multi_fields_njit_refines fs buf
+
+/-- as `_get_spans_for_multi_fields` calls it, for any number ≥ 1 of equal-length columns: `.ok` and the span array of the joint rows -/
+theorem gen_get_spans_multi_fields_eq_spec (f0 : List Int) (fs : List (List Int))
+    (hf : ∀ f ∈ f0 :: fs, f.length = f0.length) (buf : List Int) (hb : buf.length = f0.length + 1) :
+    ∃ buf', _get_spans_for_multi_fields_njit.run (f0 :: fs) buf
+      = .ok (ints (spans neq (jointRows (f0 :: fs) f0.length)), buf') := by
+  have h := get_spans_for_multi_fields_njit_refines (f0 :: fs) buf
+  have hm : getSpansForMultiFieldsNjit .repaired (f0 :: fs) buf.length = .ok (spans neq (jointRows (f0 :: fs) f0.length)) := by
+    rw [hb]; exact C08.get_spans_multi_fields_eq_spec f0 fs hf
+  rw [hm] at h
+  cases hr : _get_spans_for_multi_fields_njit.run (f0 :: fs) buf with
+  | error e => rw [hr] at h; simp [Sim, Except.map] at h
+  | ok r =>
+    rw [hr] at h
+    simp only [Sim, Except.map] at h
+    exact ⟨r.2, by rw [← h]⟩
+
+example : _get_spans_for_multi_fields_njit.run [[1, 1, 1, 2], [5, 6, 6, 6], [0, 0, 0, 0]] [0, 0, 0, 0, 0]
+    = .ok ([0, 1, 3, 4], [0, 1, 3, 4, 0]) := rfl
+example : ∀ f ∈ [[1, 1, 1, 2], [5, 6, 6, 6], [0, 0, 0, 0]], f.length = [1, 1, 1, 2].length := by decide
+
+/-! ## _get_spans_for_index_string_field -/
+
+theorem gen_get_spans_indexed_refines (indices values : List Nat) :
+    Sim (_get_spans_for_index_string_field.run (ints indices) (ints values))
+      ((getSpansForIndexStringField .repaired indices values).map ints) :=
+  get_spans_for_index_string_field_refines indices values
+
+/-- for every well-formed index the translated kernel returns `.ok` and the spans of the decoded byte strings (compared
+    byte-exactly) -/
+theorem gen_get_spans_indexed_eq_spec (indices values : List Nat) (hv : ValidIndex indices values) :
+    _get_spans_for_index_string_field.run (ints indices) (ints values)
+      = .ok (ints (spans neq (decodeRows indices values))) := by
+  have h := get_spans_for_index_string_field_refines indices values
+  rw [C08.get_spans_indexed_eq_spec indices values hv] at h
+  exact h.ok_right rfl
+
+example : _get_spans_for_index_string_field.run [0, 1, 3, 5, 5, 5] [97, 97, 32, 97, 32] = .ok [0, 1, 3, 5] := rfl
+example : _get_spans_for_index_string_field.run [] [] = .ok [0] := rfl
 
 end Exetera.Props.C08Gen
